@@ -72,21 +72,34 @@ def run(ctx):
         rep.floor(r, n)
 
 
-def run_rules(facts, rep):
+def run_rules(facts, rep, skip=()):
 
-    rep.guarded("encoding", "State/Action", lambda: cp.check_encoding(facts, rep))
-    rep.guarded("table", "STATE_CHANGES", lambda: cp.check_table(facts, rep))
-    rep.guarded("unpack", "unpack", lambda: rule_unpack(facts, rep))
-    rep.guarded("lookup", "state_change", lambda: rule_lookup(facts, rep))
-    rep.guarded("advance", "advance", lambda: rule_advance(facts, rep))
-    rep.guarded("order", "perform_state_change", lambda: rule_order(facts, rep))
-    rep.guarded("action-map", "perform_action", lambda: rule_action_map(facts, rep))
-    rep.guarded("guards", "perform_action", lambda: rule_guards(facts, rep))
-    rep.guarded("reset", "perform_action", lambda: rule_reset(facts, rep))
-    rep.guarded("limits", "limits", lambda: rule_limits(facts, rep))
-    rep.guarded("params", "Params", lambda: rule_params(facts, rep))
-    rep.guarded("utf8", "process_utf8", lambda: rule_utf8(facts, rep))
-    rep.guarded("osc", "osc_dispatch", lambda: rule_osc_dispatch(facts, rep))
+    if "encoding" not in skip:
+        rep.guarded("encoding", "State/Action", lambda: cp.check_encoding(facts, rep))
+    if "table" not in skip:
+        rep.guarded("table", "STATE_CHANGES", lambda: cp.check_table(facts, rep))
+    if "unpack" not in skip:
+        rep.guarded("unpack", "unpack", lambda: rule_unpack(facts, rep))
+    if "lookup" not in skip:
+        rep.guarded("lookup", "state_change", lambda: rule_lookup(facts, rep))
+    if "advance" not in skip:
+        rep.guarded("advance", "advance", lambda: rule_advance(facts, rep))
+    if "order" not in skip:
+        rep.guarded("order", "perform_state_change", lambda: rule_order(facts, rep))
+    if "action-map" not in skip:
+        rep.guarded("action-map", "perform_action", lambda: rule_action_map(facts, rep))
+    if "guards" not in skip:
+        rep.guarded("guards", "perform_action", lambda: rule_guards(facts, rep))
+    if "reset" not in skip:
+        rep.guarded("reset", "perform_action", lambda: rule_reset(facts, rep))
+    if "limits" not in skip:
+        rep.guarded("limits", "limits", lambda: rule_limits(facts, rep))
+    if "params" not in skip:
+        rep.guarded("params", "Params", lambda: rule_params(facts, rep))
+    if "utf8" not in skip:
+        rep.guarded("utf8", "process_utf8", lambda: rule_utf8(facts, rep))
+    if "osc" not in skip:
+        rep.guarded("osc", "osc_dispatch", lambda: rule_osc_dispatch(facts, rep))
 
 
 def rule_unpack(facts, rep):
